@@ -102,8 +102,10 @@ def eqlV : Val → Val → Bool
   | .table i, .table j => i == j
   | _, _ => false
 
-/-- Float `==` on bit patterns. -/
-def fEq (a b : UInt64) : Bool := f64 a == f64 b
+/-- IEEE `==` on binary64 bit patterns, computed on the bits: no NaN involved, and either the
+    same bits or two zeros of either sign. -/
+def fEq (a b : UInt64) : Bool :=
+  !f64IsNaN a && !f64IsNaN b && (a == b || ((a <<< 1) == 0 && (b <<< 1) == 0))
 
 /-- `TulispObject::equal`: structural equality (`PartialEq for TulispValue` / `Cons`). -/
 def equalV (c : Ctx) : Val → Val → Bool
